@@ -426,9 +426,10 @@ def evaluate(case, native):
             dep.append(max(a, tws) + d)
         total_dist = sum(dist[i][i + 1] for i in range(n - 1))
         driving = sum(dur[i][i + 1] for i in range(n - 1))
-        serving = sum(r['dur'] for r in ref)
+        serving = sum(r['dur'] for r in ref if r['kind'] != 'break')
+        breaks = sum(r['dur'] for r in ref if r['kind'] == 'break')
         waiting = sum(waits)
-        exp = {'distance': total_dist, 'duration': dep[-1] - dep[0], 'driving': driving, 'serving': serving, 'waiting': waiting, 'break': 0,
+        exp = {'distance': total_dist, 'duration': dep[-1] - dep[0], 'driving': driving, 'serving': serving, 'waiting': waiting, 'break': breaks,
                'cost': rates[0] + rates[1] * total_dist + rates[2] * (dep[-1] - dep[0])}
         st = tour['statistic']
         got = {'distance': st['distance'], 'duration': st['duration'], 'driving': st['times']['driving'], 'serving': st['times']['serving'],
@@ -575,6 +576,25 @@ def evaluate(case, native):
             return True, (f'checker rule {case["rule"]}: the documented rule {"holds" if ok else "is broken"} for the documents of this case but the checker '
                           f'{"reports" if reported else "does not report"} it (all messages: {errors})')
         return False, f'checker rule {case["rule"]}: reported={reported} agrees with the documents (rule holds={ok})'
+    if kind == 'matrix_read':
+        if 'rejected' in native:
+            return False, f'the reader rejected the documents with documented codes {native["rejected"]}'
+        m = case['matrix']
+        codes = m.get('errorCodes')
+        n = case['size'] ** 2
+        for i in range(n):
+            bad = codes is not None and i < len(codes) and codes[i] > 0
+            want = (-1.0, -1.0) if bad else (float(m['travelTimes'][i]), float(m['distances'][i]))
+            got = (native['durations'][i], native['distances'][i])
+            if got != want:
+                return True, f'routing entry {i}: provider returns (duration, distance) = {got}, the documents say {want}'
+        return False, 'every routing entry equals the supplied data'
+    if kind == 'statistic_sum':
+        for k_ in ('cost', 'distance', 'duration', 'driving', 'serving', 'waiting', 'break_time', 'commuting', 'parking'):
+            want = case['a'][k_] + case['b'][k_]
+            if native[k_] != want:
+                return True, f'Statistic + Statistic: component {k_} is {native[k_]}, the sum of the operands is {want} (operands {case["a"]} and {case["b"]})'
+        return False, 'component-wise sum'
     if kind == 'tour_order':
         def greater(a, b):
             return (a['kind'] == 'value' and b['kind'] == 'value' and a['value'] > b['value']) or (a['kind'] == 'default' and b['kind'] == 'value')
